@@ -346,12 +346,34 @@ func checkVersion(ctx *Ctx, hn *types.Named, hs *types.Struct, leaves []leafFiel
 		R.Fail("version", "value", pos, "version is not an integer")
 		return
 	}
-	condA, condB := "(0+h.OldMakerCode==33)", "(0+h.Title[20]==0)"
+	// the two facts the version depends on, as canonical propositions (so the tests may be
+	// written either way round, in a helper, or on a value computed from them)
+	omcV, _ := ip.Load(st, fieldPtr(h, hs.Field(omc).Type(), omc), hs.Field(omc).Type()).(*absint.Int)
+	var t20V *absint.Int
+	if ta, ok := ip.Load(st, fieldPtr(h, hs.Field(ttl).Type(), ttl), hs.Field(ttl).Type()).(*absint.Array); ok && len(ta.E) > 20 {
+		t20V, _ = ta.E[20].(*absint.Int)
+	}
+	if omcV == nil || t20V == nil {
+		R.Fail("version", "fields", pos, "OldMakerCode / Title[20] are not integers")
+		return
+	}
+	propA, polA := propName("==", omcV, absint.NewConst(omcV.W, 0x33, false))
+	propB, polB := propName("==", t20V, absint.NewConst(t20V.W, 0, false))
+	if propA == "" || propB == "" {
+		R.Fail("version", "fields", pos, "cannot name the version conditions")
+		return
+	}
+	resolve := func(x *absint.Int, asg [2]bool) *absint.Lin {
+		props := map[string]bool{propA: asg[0] == polA, propB: asg[1] == polB}
+		if v, ok := resolveUnder(x, ip.In.Conds, props); ok {
+			return v.Lin
+		}
+		return x.Lin
+	}
 	want := map[[2]bool]uint64{{true, true}: 3, {true, false}: 3, {false, true}: 2, {false, false}: 1}
 	okAll := true
 	for asg, w := range want {
-		g := map[string]bool{condA: asg[0], condB: asg[1]}
-		r := absint.Restrict(ver.Lin, g)
+		r := resolve(ver, asg)
 		if !r.IsConst() || r.C != w {
 			okAll = false
 			R.Fail("version", fmt.Sprintf("assignment:maker33=%v,title20zero=%v", asg[0], asg[1]), pos, fmt.Sprintf("version is %s, want %d (term %s)", r.Key(), w, trunc(ver.Lin.Key())))
@@ -372,7 +394,7 @@ func checkVersion(ctx *Ctx, hn *types.Named, hs *types.Struct, leaves []leafFiel
 				if !ok1 || !ok2 {
 					return
 				}
-				r := absint.Restrict(ai.Lin, g)
+				r := resolve(ai, asg)
 				if zeroWanted {
 					if !r.IsConst() || r.C != 0 {
 						okAll = false
